@@ -470,6 +470,22 @@ def table_construction(run, rule):
                     qex = qex or Expr(prog, q)
                     muts.append((q, t, qex))
         root = [q for q in init if q.endswith(static + "::{closure#0}")][0]
+        if not muts:
+            # collected instead of inserted: `list.into_iter().map(|(ch, ..)| (ch, Property::new(ch, ..))).collect()`
+            from .exprs import ELEM, iter_element
+            okc = False
+            for r in Expr(prog, root).returns():
+                r = strip(r)
+                if r[0] == "call" and re.search(r"FromIterator<.*>>::from_iter$|Iterator::collect$", r[1]) and r[2]:
+                    el = iter_element(prog, r[2][0])
+                    if el is not None and el[0] == "agg" and len(el[3]) == 2:
+                        key, val = strip(el[3][0][1]), strip(el[3][1][1])
+                        from_item = key == ELEM or (key[0] == "field" and strip(key[1]) == ELEM)
+                        if from_item and val[0] == "call" and val[1].endswith(owner) and val[2] and strip(val[2][0]) == key:
+                            okc = True
+            if okc:
+                good("%s[ch] = %s(ch, ..): collected from the listed entries, keyed by the property's own character" % (static.split("::")[-1], owner), root)
+                continue
         ins = [(q, t, qex) for q, t, qex in muts if Program.callee_name(t).endswith("::insert")]
         if len(muts) != 1 or len(ins) != 1 or len(ins[0][1]["args"]) != 3:
             bad(static.split("::")[-1], root, "the map is written by %d calls (%s), expected exactly one insert per listed entry" % (len(muts), sorted({Program.callee_name(t).split("::")[-1] for _, t, _ in muts})))
